@@ -377,7 +377,7 @@ pub fn checksum_window_slice(frame: &CorpusFrame, top: u8, via_scanner: bool) ->
                     let (_c, f) = next_msg_frame(&scan_buf);
                     f.map(|f| (f.frame_data().as_ptr() as usize).wrapping_sub(scan_buf.as_ptr() as usize) == pre.len()).unwrap_or(false)
                 }))
-                .unwrap_or(true);
+                .unwrap_or(false); // a scanner panic is a C05.f matter, not a delivery of this frame
                 done += 1;
                 if delivered_here {
                     rejected = false;
